@@ -263,11 +263,11 @@ pub fn c07(ctx: &mut Ctx, tier: &str, r: &mut Rng, js: &[Value], reqs: &[String]
     });
     let mut last = 0usize;
     loop {
-        match rx.recv_timeout(Duration::from_secs(20)) {
+        match rx.recv_timeout(Duration::from_secs(60)) {
             Ok(Some(i)) => last = i,
             Ok(None) => break,
             Err(_) => {
-                ctx.fail(cases[last].to_json(), "no result after 20 s (hang)".into(), "a result in bounded time".into());
+                ctx.fail(cases[last].to_json(), "no result after 60 s (hang)".into(), "a result in bounded time".into());
                 ctx.evals += last as u64;
                 ctx.finish(json!({"watchdog": "fired"}));
                 std::process::exit(0);
@@ -286,7 +286,7 @@ pub fn c07(ctx: &mut Ctx, tier: &str, r: &mut Rng, js: &[Value], reqs: &[String]
     if let Some(c) = cases.last() {
         ctx.sample(c.to_json());
     }
-    ctx.finish(json!({"watchdog_s": 20}));
+    ctx.finish(json!({"watchdog_s": 60}));
 }
 
 // ------------------------------------------------------------------------------------ C08
